@@ -419,6 +419,8 @@ class Function:
         for _round in range(depth):
             if not _inline_round(d, base.unit, base.name, counter, max_blocks, only, skip):
                 break
+        if counter[0]:
+            _prune_constant_branches(d)
         f = Function(d, base.unit)
         f.inlined_from = base
         cache[key] = f
@@ -685,6 +687,67 @@ class Function:
         return "%s:%d" % (self.unit.relpath, l)
 
 
+def _fold(e):
+    """Value of an expression made of constants only (after a constant argument was substituted for a parameter), else None."""
+    if e is None:
+        return None
+    k = e["k"]
+    if k == "call" and e.get("callee") == "__builtin_expect" and e.get("args"):
+        return _fold(e["args"][0])
+    if k == "int":
+        return e.get("v", e.get("cv"))
+    if k == "cast":
+        return _fold(e["e"])
+    if k == "ref":
+        return e.get("cv") if e.get("decl") == "enumconst" else None
+    if k == "un" and e["op"] in ("!", "-", "~", "+"):
+        v = _fold(e["e"])
+        if v is None:
+            return None
+        return {"!": int(not v), "-": -v, "~": ~v, "+": v}[e["op"]]
+    if k == "bin" and e["op"] in ("==", "!=", "<", ">", "<=", ">=", "&&", "||", "&", "|", "+", "-"):
+        l, r = _fold(e["l"]), _fold(e["r"])
+        if e["op"] == "&&" and (l == 0 or r == 0):
+            return 0
+        if e["op"] == "||" and ((l is not None and l != 0) or (r is not None and r != 0)):
+            return 1
+        if l is None or r is None:
+            return None
+        return int({"==": l == r, "!=": l != r, "<": l < r, ">": l > r, "<=": l <= r, ">=": l >= r, "&&": bool(l and r), "||": bool(l or r),
+                    "&": l & r, "|": l | r, "+": l + r, "-": l - r}[e["op"]])
+    return None
+
+
+def _prune_constant_branches(d):
+    """After inlining with constant arguments some branch conditions are constants: the edge not taken is marked unreachable
+    (a helper `wake (cond, TRUE)` that signals or broadcasts depending on its flag contributes only the branch that runs)."""
+    for b in d["blocks"]:
+        t = b.get("term")
+        if not t or len(b.get("succs", [])) < 2:
+            continue
+        ci = t.get("ci", -1)
+        if ci is None or ci < 0 or ci >= len(b["stmts"]):
+            continue
+        c = b["stmts"][ci]
+        if not any(n.get("_caller") for n in _walk_all(c)):
+            continue                      # only conditions that became constant through a substituted argument
+        v = _fold(c)
+        if v is None:
+            continue
+        labels = [s_.get("on", "") for s_ in b["succs"]]
+        if any(l.startswith("case:") or l == "default" for l in labels):
+            want = "case:%d" % v
+            keep = want if want in labels else "default"
+            for s_ in b["succs"]:
+                if s_.get("on", "") != keep:
+                    s_["unreachable"] = True
+        else:
+            keep = "true" if v else "false"
+            for s_ in b["succs"]:
+                if s_.get("on", "") in ("true", "false") and s_["on"] != keep:
+                    s_["unreachable"] = True
+
+
 def _walk_all(e):
     for n in walk(e, elsewhere=True):
         yield n
@@ -799,6 +862,34 @@ def _inline_round(d, unit, self_name, counter, max_blocks, only, skip):
                 if av is not None and av["k"] == "ref" and av.get("decl") in ("local", "param") and p_["name"] not in assigned and not av.get("x"):
                     direct[p_["name"]] = (av["name"], av.get("decl"))
                     continue
+                # a field of a caller variable (`shm->platform_key`) handed to a parameter the callee never reassigns, when the callee
+                # stores into no field of that name: the parameter is that field expression
+                if av is not None and av["k"] == "member" and p_["name"] not in assigned and not av.get("x"):
+                    root_ = av
+                    chain_ok = True
+                    fields_ = set()
+                    while root_ is not None and root_["k"] in ("member", "cast"):
+                        if root_["k"] == "member":
+                            fields_.add(root_["field"])
+                            root_ = root_["base"]
+                        else:
+                            root_ = root_["e"]
+                    if root_ is not None and root_["k"] == "ref" and root_.get("decl") in ("local", "param") and not any(m_.get("x") for m_ in _walk_all(av)):
+                        stored = set()
+                        for cb in cd["blocks"]:
+                            for s_ in cb["stmts"]:
+                                for n in _walk_all(s_):
+                                    if n["k"] == "asg":
+                                        t_ = n["l"]
+                                        while t_ is not None and t_["k"] == "cast":
+                                            t_ = t_["e"]
+                                        if t_ is not None and t_["k"] == "member":
+                                            stored.add(t_["field"])
+                                    if n["k"] == "call" and n.get("callee") not in (None,) and n["callee"] in unit.functions:
+                                        stored.add("*")          # a nested helper might store: stay conservative
+                        if not (fields_ & stored) and "*" not in stored:
+                            const_of[p_["name"]] = av
+                            continue
                 # a compile-time constant handed to a parameter the callee never reassigns: the parameter is that constant
                 if a is not None and cv(a) is not None and p_["name"] not in assigned and not a.get("x"):
                     const_of[p_["name"]] = a
@@ -809,6 +900,14 @@ def _inline_round(d, unit, self_name, counter, max_blocks, only, skip):
                     while tv is not None and tv["k"] == "cast":
                         tv = tv["e"]
                     if tv is not None and tv["k"] == "ref" and tv.get("decl") in ("local", "param"):
+                        addr_of[p_["name"]] = tv
+                        continue
+                    # `&obj->field`: `*param` is that field
+                    rt_ = tv
+                    while rt_ is not None and rt_["k"] in ("member", "cast"):
+                        rt_ = rt_["base"] if rt_["k"] == "member" else rt_["e"]
+                    if tv is not None and tv["k"] == "member" and rt_ is not None and rt_["k"] == "ref" and rt_.get("decl") in ("local", "param") \
+                            and not any(m_.get("x") for m_ in _walk_all(tv)):
                         addr_of[p_["name"]] = tv
                         continue
                 pre.append({"k": "asg", "op": "=", "loc": loc, "t": p_["t"], "inl": 1,
@@ -846,7 +945,10 @@ def _inline_round(d, unit, self_name, counter, max_blocks, only, skip):
                                     while inner is not None and inner["k"] == "cast":
                                         inner = inner["e"]
                                     if inner is not None and inner["k"] == "ref" and inner.get("decl") == "param" and inner["name"] in addr_of:
-                                        r2 = dict(addr_of[inner["name"]])
+                                        import copy as _cp2
+                                        r2 = _cp2.deepcopy(addr_of[inner["name"]])
+                                        for m_ in _walk_all(r2):
+                                            m_["_caller"] = 1
                                         r2["_caller"] = 1
                                         r2["loc"] = v.get("loc", r2.get("loc"))
                                         if v.get("x"):
@@ -866,7 +968,10 @@ def _inline_round(d, unit, self_name, counter, max_blocks, only, skip):
                     for s_ in cb["stmts"]:
                         for n in _walk_all(s_):
                             if n["k"] == "ref" and n.get("decl") == "param" and n["name"] in addr_of:
-                                tv = dict(addr_of[n["name"]])
+                                import copy as _cp3
+                                tv = _cp3.deepcopy(addr_of[n["name"]])
+                                for m_ in _walk_all(tv):
+                                    m_["_caller"] = 1
                                 tv["_caller"] = 1
                                 n.clear()
                                 n.update({"k": "un", "op": "&", "e": tv, "loc": tv.get("loc"), "t": tv.get("t", 0), "_caller": 1})
